@@ -58,6 +58,8 @@ class World:
         add(6, RW, 4)            # not mappable
         add(7, R | P, 2)         # read-only: TPDO ok, RPDO wrong access
         add(8, W | P, 2)         # write-only: RPDO ok, TPDO wrong access
+        self.big = gen.rand_bytes(rng, 8)
+        cfg.add(S.domain(0x2301, 0, 8, self.big, flags=RW | P))      # an 8-byte object (mapped through the application callbacks)
         self.pdos = []
         for n in range(npdo):
             good_r = [gen.maplink(0x2300, s, 8 * self.objs[(0x2300, s)][0]) for s in (0, 1, 2)]
@@ -115,7 +117,9 @@ def gen_write(rng, w, p):
             bits = rng.choice([8, 16]) if bits == 32 else 8          # fewer bits than the object has: the first bytes of the object are mapped
         v = gen.maplink(0x2300, sub, bits)
         if rng.random() < 0.12:
-            v = gen.maplink(rng.choice([0x2301, 0x2300, 0x1FFF]), rng.choice([0x20, 9, 0]), 8)
+            v = gen.maplink(rng.choice([0x2302, 0x2300, 0x1FFF]), rng.choice([0x20, 9, 0]), 8)
+        elif rng.random() < 0.08:
+            v = gen.maplink(0x2301, 0, rng.choice([15, 71, 1, 65, 12, 63]))         # bit lengths the byte-oriented mapping cannot honour
         return p.mapi(), rng.randint(1, 8), 4, v, kind
     return p.mapi(), 0, 1, rng.choice([0, 0, 1, 2, 3, 4, 5, 8, 9, 255]), kind
 
@@ -143,6 +147,9 @@ def expect(w, p, idx, sub, value, kind):
     if kind == "entry":
         if p.valid() or p.count != 0:
             return ("abort", None)
+        if (value >> 16, (value >> 8) & 0xFF) == (0x2301, 0):
+            # 8-byte object: a length that is no whole number of bytes, or exceeds the object, cannot take effect as stored
+            return ("abort", None) if ((value & 0xFF) % 8 or (value & 0xFF) > 64) else ("open",)
         c = w.entry_verdict(p, value)
         if c is None:
             wd = w.objs[(value >> 16, (value >> 8) & 0xFF)][0]
